@@ -689,6 +689,24 @@ def main():
     # ---- node-level recovery composition (spec/Recover.tla): which snapshot the node starts from, where the WAL replay begins
     import recoverlib
     recoverlib.run(tier, V, PROP, coverage)
+    # the real Ready loop (raftexample/raft.go serveChannels) against the same model: a follower installs the leader's snapshot
+    # and dies inside that Ready cycle. (1) it must be able to start again; (2) its event trace shows in which order it made
+    # the snapshot and the hard state durable - if that is not the specified order, Recover.tla is instantiated with the
+    # observed one (B3) and its behaviours are replayed on real files to obtain a witness
+    import clusterscen
+    sic = {}
+    for gate in (["walsave"] if tier == "quick" else ["savesnap", "walsave", "append", "advance"]):
+        for attempt in range(2):
+            probs, st = clusterscen.snapshot_install_crash(gate, seed=common.seed())
+            if probs is not None:
+                break
+        sic[gate] = st
+        for pr in probs or []:
+            V.report({"branch": "readyloop.snapshot-install", "kind": pr["kind"], "detail": gate}, pr, what=pr["detail"])
+        if st.get("ready_snapshot_order") == "save_first" and "recover_model_as_observed" not in coverage:
+            print("DIVERGENCE property=%s the Ready loop saved the hard state of a snapshot-carrying Ready before the snapshot (event trace of the follower); instantiating Recover.tla with the observed order" % PROP, flush=True)
+            recoverlib.run(tier, V, PROP, coverage, as_observed="save_first")
+    coverage["ready_loop_snapshot_install"] = sic
     coverage["evaluations"] = int(coverage["evaluations"]) + coverage["recover_model"]["replayed"]
     V.finish(tier, "fault_enumeration", coverage, assumptions)
 
